@@ -463,6 +463,49 @@ func (e *Enc) callByContract(fr *Frame, fn *ssa.Function, c *Contract, args []Va
 	return res
 }
 
+// specCallByContract: a contract-specified method called inside a specification. Result and assigned state are havocked on the
+// (copied) state; every ensures clause is assumed under the conjunction of the callee's requires clauses.
+func (e *Enc) specCallByContract(fr *Frame, fn *ssa.Function, c *Contract, args []Val, st *State, reach string, rt types.Type) Val {
+	errs := ""
+	pre := e.paramScope(fn, args, st.clone(), nil, &errs, reach)
+	var rs []string
+	for _, r := range c.Requires {
+		t := pre.b(pre.formula(r.F))
+		if errs != "" {
+			e.fatalf("%s:%d: binding error: %s in %q", r.File, r.Line, errs, r.Text)
+			errs = ""
+			continue
+		}
+		rs = append(rs, t)
+	}
+	guard := and(append([]string{reach}, rs...)...)
+	oldSt := st.clone()
+	e.applyAssigns(fn, c, args, st, &oldSt, reach)
+	var res Val
+	if rt != nil {
+		res = e.havocVal(rt, "ret_"+fn.Name())
+		e.wfAssume(st, reach, res)
+	}
+	post := e.paramScope(fn, args, st.clone(), &oldSt, &errs, guard)
+	bindResults(post, fn, res, rt)
+	for _, en := range c.Ensures {
+		if len(en.Tags) > 0 && !e.wantsTags(en.Tags) {
+			continue
+		}
+		t := post.b(post.formula(en.F))
+		if errs != "" {
+			e.fatalf("%s:%d: binding error: %s in %q", en.File, en.Line, errs, en.Text)
+			errs = ""
+			continue
+		}
+		e.assume(imp(guard, t))
+	}
+	if e.usedContracts != nil {
+		e.usedContracts[e.ctx.funcKey(fn)] = true
+	}
+	return res
+}
+
 // wantsTags: tagged callee postconditions are assumed only when the function under proof has clauses with one of those tags.
 func (e *Enc) wantsTags(tags []string) bool {
 	if e.topTags == nil {
@@ -923,11 +966,9 @@ func (sc *Scope) pureMethod(recv Val, name string, args []Val) Val {
 		r = "true" // under a quantifier the guard may mention bound variables; inlined bodies there must be assumption-free
 	}
 	if byContract {
-		// a side-effect free method with a contract (typically one with loops): its postconditions, on a copy of the state
-		e.mute++
-		v := e.callByContract(sc.fr, fn, c, all, &st, r, token.NoPos, rt)
-		e.mute--
-		return v
+		// a side-effect free method with a contract (typically one with loops): its postconditions, on a copy of the state.
+		// The callee's preconditions are NOT assumed here: its postconditions are taken only under them.
+		return e.specCallByContract(sc.fr, fn, c, all, &st, r, rt)
 	}
 	return e.inlineCall(sc.fr, fn, all, &st, r, rt)
 }
